@@ -2,7 +2,7 @@
    Statements only: each theorem restates a lemma of Theorems.v and is closed by [exact]. *)
 From stdpp Require Import gmap list.
 From Coq Require Import NArith.
-From G Require Import Arith Monad Types Inv Raw RawProofs Map MapProofs IterProofs CloneProofs Cost EntryProofs EntryCost Ledger SetProofs Conserve Fill WorldProofs WorldLedger Theorems.
+From G Require Import Arith Monad Types Inv Raw RawProofs Map MapProofs IterProofs CloneProofs Cost EntryProofs EntryCost Ledger SetProofs Conserve EntryLedger Fill WorldProofs WorldLedger Theorems.
 Local Open Scope N_scope.
 
 (* the conservation law over histories.  ledger_op: new, insert, get*, remove / remove_entry, clear,
@@ -26,6 +26,41 @@ Theorem C06_keys_in_static : forall c w ts rs w',
   ok_run c w ts rs w' -> forallb (fun t => static_in (t_op t)) ts = true ->
   keys_in c w ts = concat (map (fun t => k_in world0 (t_op t)) ts).
 Proof. exact T_C06_keys_in_static. Qed.
+
+(* every operation of the model is covered by the conservation law (entry chains without raw-only
+   steps, size arguments that fit a usize, drains that are not forgotten) *)
+Theorem C06_law_covers_every_operation : forall o,
+  ledger_op o <->
+  match o with
+  | OEntry _ _ _ ss => forallb (fun st => negb (raw_only st)) ss = true
+  | ODrain _ _ forget => forget = false
+  | OReserve _ n | OTryReserve _ n => n <= usize_max
+  | OExtend _ _ hint => hint <= usize_max
+  | OParExtend _ chunks => N.of_nat (length (concat chunks)) < usize_max
+  | _ => True
+  end.
+Proof. exact T_C06_law_covers. Qed.
+
+(* entry and raw-entry handles: one step conserves the key objects - those stored, the one the
+   handle holds, those the step is given - against what it drops and hands back; so does a chain,
+   at whose end the handle's own key has been stored, dropped or handed back *)
+Theorem C06_entry_step_conserves : forall c raw e st s e' r s',
+  Inv (cR c) (cesz c) (s_rt s) -> ent_ok (s_rt s) e -> raw_wf raw (strip e) -> st_wf raw st ->
+  entry_step c raw e st s = Ok (e', r) s' ->
+  dks s' ++ kidsE (s_rt s') ++ hk (strip e') ++ step_kout st r ≡ₚ step_kin st (strip e) ++ dks s ++ kidsE (s_rt s) ++ hk (strip e).
+Proof. exact T_C06_entry_step_conserves. Qed.
+
+Theorem C06_entry_chain_conserves : forall c k kid ss s outs s',
+  Inv (cR c) (cesz c) (s_rt s) -> Forall (st_wf false) ss -> map_entry c k kid ss s = Ok outs s' ->
+  dks s' ++ kidsE (s_rt s') ++ chain_kout ss outs ≡ₚ
+  (kid :: chain_kin false (rt_abs (s_rt s)) (start_ent (rt_abs (s_rt s)) k (Some kid)) ss) ++ dks s ++ kidsE (s_rt s).
+Proof. exact T_C06_entry_chain_conserves. Qed.
+
+Theorem C06_raw_entry_chain_conserves : forall c variant k ss s outs s',
+  Inv (cR c) (cesz c) (s_rt s) -> map_raw_entry c variant k ss s = Ok outs s' ->
+  dks s' ++ kidsE (s_rt s') ++ chain_kout ss outs ≡ₚ
+  chain_kin true (rt_abs (s_rt s)) (start_ent (rt_abs (s_rt s)) k None) ss ++ dks s ++ kidsE (s_rt s).
+Proof. exact T_C06_raw_entry_chain_conserves. Qed.
 
 (* storing a new element - with whatever growing (the main table becomes the old one) and
    carrying (elements move from the old table to the new one) the call performs - drops nothing:
@@ -159,6 +194,10 @@ Proof. exact T_C06_lite_reachable. Qed.
 Print Assumptions C06_history_conserves_keys.
 Print Assumptions C06_all_released_once_maps_are_gone.
 Print Assumptions C06_keys_in_static.
+Print Assumptions C06_law_covers_every_operation.
+Print Assumptions C06_entry_step_conserves.
+Print Assumptions C06_entry_chain_conserves.
+Print Assumptions C06_raw_entry_chain_conserves.
 Print Assumptions C06_moves_drop_nothing.
 Print Assumptions C06_insert_drops_duplicate_key_only.
 Print Assumptions C06_insert_conserves.
